@@ -154,6 +154,8 @@ def check_axes(ctx):
         a, b = e['a'], e['b']
         is_vec = a is not None and a.store == VEC
         is_mat = b is not None and bool(b.is_param and b.is_param.endswith(':matrix') or (b.origin and any(o.endswith('.matrix') for o in b.origin)))
+        if not is_vec and e['where'] is not None and e['where'].qualname != ft.qualname:
+            continue  # a product made while the new object is constructed, not the transform itself
         if is_vec and is_mat:
             ctx.ob('R2', ft, e['node'], True if b.transposed else False, 'v . M^T = M v for every vector' if b.transposed else
                    'dot(v, M) applies the transposed matrix to every vector')
